@@ -287,6 +287,25 @@ func c09Doc(c *explore.Ctx, s *explore.SubStats, d kitDoc) {
 				c09Links(c, s, d, schema, doc, "second validation after the fragment definitions were replaced")
 			}
 		}
+		// a document built by hand (or decoded from JSON without the member): the zero value of
+		// Operation stands for a query
+		{
+			hb, _ := parser.ParseQuery(&ast.Source{Name: "q.graphql", Input: d.Doc})
+			changed := false
+			for _, op := range hb.Operations {
+				if op.Operation == ast.Query {
+					op.Operation = ""
+					changed = true
+				}
+			}
+			if changed {
+				var herrs gqlerror.List
+				r := guarded(c02DocBudget, 5000, func() { herrs = validator.Validate(schema, hb) })
+				if !r.Panicked && len(herrs) == 0 {
+					c09Links(c, s, d, schema, hb, "validation of the document with Operation left at its zero value")
+				}
+			}
+		}
 		alt := kitAltSchema(d.Schema)
 		r := guarded(c02DocBudget, 5000, func() { validator.Validate(alt, doc) })
 		if !r.Panicked {
@@ -315,7 +334,7 @@ func c09Links(c *explore.Ctx, s *explore.SubStats, d kitDoc, schema *ast.Schema,
 	}
 	for _, op := range doc.Operations {
 		l.opOf = op
-		root := map[ast.Operation]*ast.Definition{ast.Query: schema.Query, ast.Mutation: schema.Mutation, ast.Subscription: schema.Subscription}[op.Operation]
+		root := map[ast.Operation]*ast.Definition{"": schema.Query, ast.Query: schema.Query, ast.Mutation: schema.Mutation, ast.Subscription: schema.Subscription}[op.Operation]
 		if root == nil {
 			continue
 		}
@@ -332,7 +351,11 @@ func c09Links(c *explore.Ctx, s *explore.SubStats, d kitDoc, schema *ast.Schema,
 			}
 			l.dirs(vd.Directives, ast.LocationVariableDefinition, where+" $"+vd.Variable)
 		}
-		l.dirs(op.Directives, ast.DirectiveLocation(strings.ToUpper(string(op.Operation))), where)
+		opLoc := ast.DirectiveLocation(strings.ToUpper(string(op.Operation)))
+		if op.Operation == "" {
+			opLoc = ast.LocationQuery
+		}
+		l.dirs(op.Directives, opLoc, where)
 		l.selections(op.SelectionSet, root.Name, where)
 	}
 	l.opOf = nil
